@@ -127,6 +127,7 @@ func genRcptValue(c *core.Chooser, key string) string {
 		}
 	default: // colons, look-alikes of the keys in another case, and words that CONTAIN a key's name (never a key token)
 		looks := []string{"ID:", "SUB:", "Id:", "STAT:", "ERR:", "TEXT:", "DLVRD:", ":", "::", "a:b", "Date:", "date:", "sTat:",
+			"sText", "sStat", "sSub", "sErr", "sDlvrd", "sSubmit_Date", "sDone_Date", "newsText", "UNsStat", "Text", "Stat",
 			"subway", "submit", "sub", "paid", "valid", "id", "berry", "cherry", "err", "status", "restate", "stat", "context", "text", "dlvrd", "done", "date", "msgid", "userid"}
 		for len(v) < n {
 			if c.Bool() {
@@ -343,8 +344,14 @@ func runReceipts(r *core.Run) {
 					stat = stat[:7]
 				}
 			}
-			body := &cmpp.SubPduDeliveryContent{MsgID: id, Stat: stat, SubmitTime: string(c.Blob(c.Size(10, 10), "digits")),
-				DoneTime: string(c.Blob(c.Size(10, 10), "digits")), DestTerminalID: string(c.Blob(c.Size(21, 11, 13, 21), "digits")), SMSCSequence: uint32(c.Uint64())}
+			edgeTime := func(t string) string {
+				if c.Prob(1, 8) {
+					return []string{"0000000000", "", "9999999999", "0000000001", "000000000", "          "}[c.Intn(6)]
+				}
+				return t
+			}
+			body := &cmpp.SubPduDeliveryContent{MsgID: id, Stat: stat, SubmitTime: edgeTime(string(c.Blob(c.Size(10, 10), "digits"))),
+				DoneTime: edgeTime(string(c.Blob(c.Size(10, 10), "digits"))), DestTerminalID: string(c.Blob(c.Size(21, 11, 13, 21), "digits")), SMSCSequence: uint32(c.Uint64())}
 			m.cmppBody = body
 			var bb []byte
 			var err error
